@@ -339,6 +339,9 @@ Definition insert_rates (committed : db) (h : Z) (s : db) (assets : list (Z * Z)
     let others := filter (fun a => negb (fst a =? PTickerPEG)) assets in
     if has_dup (map fst others) then Fail E_UNIQUE_RATE
     else if existsb (fun a => two63 <=? snd a) others then Fail E_SQLARG
+    (* SelectIssuances is one SELECT of SUM(col) over every balance column: SQLite raises "integer
+       overflow" as soon as one column total leaves int64 *)
+    else if (phase =? 2) && existsb (fun t => max_int64 <? supply committed t) all_tickers then Fail E_OVERFLOW_CELL
     else
       let reported_peg := fold_left (fun acc a => if fst a =? PTickerPEG then snd a else acc) assets 0 in
       let peg :=
